@@ -3844,11 +3844,10 @@ fn evaluate_scalar_func(
                         let to: Vec<char> = to_arr.value(i).chars().collect();
                         Some(
                             s.chars()
-                                .map(|c| {
-                                    from.iter()
-                                        .position(|&fc| fc == c)
-                                        .and_then(|pos| to.get(pos).copied())
-                                        .unwrap_or(c)
+                                .filter_map(|c| match from.iter().position(|&fc| fc == c) {
+                                    // matched beyond the end of `to`: the character is omitted
+                                    Some(pos) => to.get(pos).copied(),
+                                    None => Some(c),
                                 })
                                 .collect::<String>(),
                         )
